@@ -129,10 +129,16 @@ impl BufRead for SegReader {
 pub struct FaultWriter {
     pub buf: Vec<u8>,
     pub limit: Option<usize>,
+    /// accept at most this many bytes per `write` call (short writes)
+    pub short: Option<usize>,
 }
 
 impl Write for FaultWriter {
     fn write(&mut self, b: &[u8]) -> io::Result<usize> {
+        let b = match self.short {
+            Some(n) if b.len() > n.max(1) => &b[..n.max(1)],
+            _ => b,
+        };
         match self.limit {
             None => {
                 self.buf.extend_from_slice(b);
@@ -356,6 +362,7 @@ fn run_cut(kv: &Kv) -> String {
     let mut writer = FaultWriter {
         buf: Vec::new(),
         limit: opt_usize(kv, "wf"),
+        short: opt_usize(kv, "sw"),
     };
     let eng = kv.get("eng").copied().unwrap_or("str");
     let res = catch_unwind(AssertUnwindSafe(|| -> Result<Result<(), String>, &'static str> {
